@@ -170,6 +170,35 @@ def make_discontinuous(rng, M):
     return M
 
 
+def make_interface(rng, M):
+    """an internal interface (fracture, material boundary, DG patch): the cells are split into two groups and every point used by
+    both groups is stored twice, one copy per group — coincident points that each belong to SEVERAL cells"""
+    cells = [(bi, j) for bi, (t, rows) in enumerate(M["blocks"]) for j in range(len(rows))]
+    if len(cells) < 2:
+        return False
+    group = {c: rng.random() < 0.5 for c in cells}
+    if len(set(group.values())) < 2:
+        group[cells[0]] = not group[cells[-1]]
+    used = {True: set(), False: set()}
+    for (bi, j), g in group.items():
+        used[g].update(M["blocks"][bi][1][j])
+    shared = sorted(used[True] & used[False])
+    if not shared:
+        return False
+    copy_of = {}
+    for p in shared:
+        copy_of[p] = len(M["pts"])
+        M["pts"].append(list(M["pts"][p]))
+        for k in M["pf"]:
+            M["pf"][k].append(M["pf"][k][p])
+    for (bi, j), g in group.items():
+        if g:
+            row = M["blocks"][bi][1][j]
+            for a in range(len(row)):
+                row[a] = copy_of.get(row[a], row[a])
+    return True
+
+
 def copy_mesh(M):
     M = {k: v for k, v in M.items() if k != "_orph"}
     return _copy_mesh(M)
